@@ -201,7 +201,7 @@ Section Inv.
 
   Lemma INV_publish st L D b q' :
     INV st L D -> s_queue st = b :: q' ->
-    INV (Store (s_res st) (s_idx st) (s_vsn st) q' (publish_batch b (s_bufs st)) (s_cache st) (s_watches st)) L D.
+    INV (Store (s_res st) (s_idx st) (s_vsn st) (s_stale st) q' (publish_batch b (s_bufs st)) (s_cache st) (s_watches st)) L D.
   Proof.
     intros (Ht & Hq & Hb & Hc & Hw & Ho & Hr & Hn & Hd) Hqe.
     assert (Hget : forall s, buf_get s (publish_batch b (s_bufs st)) = option_map (pub_tb s b) (buf_get s (s_bufs st))).
@@ -247,7 +247,7 @@ Section Inv.
 
   Lemma INV_evict st L D s :
     INV st L D ->
-    INV (Store (s_res st) (s_idx st) (s_vsn st) (s_queue st) (s_bufs st) (cache_del s (s_cache st)) (s_watches st)) L D.
+    INV (Store (s_res st) (s_idx st) (s_vsn st) (s_stale st) (s_queue st) (s_bufs st) (cache_del s (s_cache st)) (s_watches st)) L D.
   Proof.
     intros (Ht & Hq & Hb & Hc & Hw & Ho & Hr & Hn & Hd).
     unfold INV. split; [exact Ht|]. split; [exact Hq|]. split; [|split; [|split; [|split; [|split]]]]; try assumption.
@@ -444,9 +444,9 @@ Section Inv.
     assert (Hst' : fst (let '(snap0, cache0) := match cache_get s (s_cache st) with
                                  | Some sn => (sn, s_cache st)
                                  | None => (fresh, s_cache st ++ [(s, fresh)]) end in
-                   (Store (s_res st) (s_idx st) (s_vsn st) (s_queue st) (buf_set s tb' (s_bufs st)) cache0
+                   (Store (s_res st) (s_idx st) (s_vsn st) (s_stale st) (s_queue st) (buf_set s tb' (s_bufs st)) cache0
                           (s_watches st ++ [Watch s q WOpen false snap0 0 [] 0]), OutWatch (List.length (s_watches st))))
-                 = Store (s_res st) (s_idx st) (s_vsn st) (s_queue st) (buf_set s tb' (s_bufs st)) cache'
+                 = Store (s_res st) (s_idx st) (s_vsn st) (s_stale st) (s_queue st) (buf_set s tb' (s_bufs st)) cache'
                          (s_watches st ++ [Watch s q WOpen false snap 0 [] 0])).
     { unfold snap, cache'. destruct (cache_get s (s_cache st)); reflexivity. }
     fold s tb0 tb' fresh. rewrite Hst'. clear Hst'.
@@ -548,7 +548,7 @@ Section Inv.
     (forall s', s' <> w_subj w -> buf_get s' bufs' = buf_get s' (s_bufs st)) ->
     buf_get (w_subj w) bufs' = (if Nat.eqb (b_refs tb) 1 then None else Some (TBuf (b_refs tb - 1) (b_items tb))) ->
     (forall s' sn, cache_get s' cache' = Some sn -> cache_get s' (s_cache st) = Some sn /\ (b_refs tb = 1%nat -> s' <> w_subj w)) ->
-    INV (Store (s_res st) (s_idx st) (s_vsn st) (s_queue st) bufs' cache'
+    INV (Store (s_res st) (s_idx st) (s_vsn st) (s_stale st) (s_queue st) bufs' cache'
                (set_nth n (Watch (w_subj w) (w_query w) (match w_state w with WOpen => WUnsub | x => x end) true
                                  (w_snap w) (w_pos w) (w_events w) (w_idx w)) (s_watches st))) L D.
   Proof.
